@@ -808,9 +808,10 @@ var (
 func run(c *lib.Ctx) {
 	setup()
 	debug.SetGCPercent(200) // many small short-lived objects, small live heap
-	depth := lib.Pick(c, 5, 7)
+	// depth per root: {new, from row} x {passive, active observer}
+	depths := lib.Pick(c, []int{5, 5, 5, 5}, []int{7, 6, 6, 6})
 	c.Set("events", len(events))
-	c.Set("max_depth", depth)
+	c.Set("max_depth", depths)
 	names := []string{}
 	for _, e := range events {
 		names = append(names, e.name)
@@ -818,8 +819,8 @@ func run(c *lib.Ctx) {
 	c.Set("alphabet", names)
 	completed := map[string]int{}
 	for root := 0; root < 2; root++ {
-		for _, activeOb := range []bool{false, true} {
-			d := bfs(c, root, activeOb, depth)
+		for i, activeOb := range []bool{false, true} {
+			d := bfs(c, root, activeOb, depths[root*2+i])
 			completed[fmt.Sprintf("root%d/activeObserver=%v", root, activeOb)] = d
 			if c.Expired() {
 				break
